@@ -311,6 +311,8 @@ class DictBuilder:
         self.outcomes: List[Outcome] = []
         self.attr_stores: List[Tuple[str, CondSet, Optional[ast.AST], ast.AST]] = []  # (self.X, conds, value(subst), stmt)
         self.attr_mutations: List[Tuple[str, ast.AST]] = []  # self.X[...] = / self.X.append(...)
+        self.loop_pseudos: List[Set[str]] = []  # per enclosing for-loop: the canonical names of its loop variables
+        self.overwrites: List[Tuple[ast.AST, str, str]] = []  # (stmt, path text, loop text): whole-dict store per iteration
         self.params = [a.arg for a in fn.node.args.posonlyargs + fn.node.args.args + fn.node.args.kwonlyargs]
 
     # ------------------------------------------------------------------ conditions in scope
@@ -482,6 +484,14 @@ class DictBuilder:
 
     def store(self, tree: Tree, path: Path, val: Val, conds: CondSet, *, merge: bool = False) -> None:
         if not merge:
+            # `d[p] = {v: ...}` inside `for v in ...` where the target path does not depend on v: every iteration replaces the
+            # whole dictionary, so of the keys that depend on v only the last one survives
+            if val.kind == "dict" and self.loop_pseudos:
+                ptxt = " ".join(str(k[1]) for k in path)
+                for ids in self.loop_pseudos:
+                    if ids and not any(i in ptxt for i in ids) and any(
+                            k is not None and k[0] == "var" and any(i in str(k[1]) for i in ids) for k, _x, _v in val.items):
+                        self.overwrites.append((val.raw, path_text(path), ", ".join(sorted(ids))))
             tree.kill(path, conds)
         self._store(tree, path, val, conds, merge)
 
@@ -647,12 +657,21 @@ class DictBuilder:
             if isinstance(s, ast.For):
                 atom = (self.bind_loop(s.target, s.iter), True)
                 self._note(s.iter)
+                ids = set()
+                for tn in ast.walk(s.target):
+                    if isinstance(tn, ast.Name) and tn.id in self.env and self.env[tn.id]:
+                        last = self.env[tn.id][-1][1]
+                        if isinstance(last, ast.Name) and is_pseudo(last.id):
+                            ids.add(last.id)
+                self.loop_pseudos.append(ids)
             else:
                 atom = (f"while {unparse(self.subst(s.test))}", True)
                 self._note(s.test)
+                self.loop_pseudos.append(set())
             n = self._push(frozenset([atom]))
             na = len(self.lit_alias)
             self.exec_block(s.body)
+            self.loop_pseudos.pop()
             del self.stack[n:]
             del self.lit_alias[na:]
             del self.ambient[saved_amb:]
